@@ -104,10 +104,13 @@ class API:
         if cond is None:
             tok = ctx.enter_generic(k, sand(0 <= k, k < n))
             try:
-                val = elt(seq.get(k))
+                xk = seq.get(k)
+                val = elt(xk)
             finally:
                 ctx.exit_generic(tok)
-            return SSeq(n, lambda q, val=val, k=k: sym.subst_val(val, k, q))
+            # [x for x in seq] holds the element objects of seq itself (ownership ghost)
+            return SSeq(n, lambda q, val=val, k=k: sym.subst_val(val, k, q),
+                        owners=seq.owners if val is xk else None)
         tok = ctx.enter_generic(k, sand(0 <= k, k < n))
         try:
             cv = cond(seq.get(k))
@@ -349,7 +352,7 @@ def _b_enumerate(x, start=0):
 
 def _b_list(x=()):
     if isinstance(x, SSeq):
-        return SSeq(x._len, x._get, x.elem_kind)
+        return SSeq(x._len, x._get, x.elem_kind, owners=x.owners)
     if isinstance(x, SArr):
         return sym.as_seq(x)
     return _bi.list(x)
